@@ -355,3 +355,62 @@ def parseparam_quote_parity(p: Program, rep=None):
     if n == 0:
         out.append(("undecided", fn, None, "", "_parseparam: no quote-parity test found (splitter idiom not recognised)", []))
     return out
+
+
+# ----------------------------------------------------------------------------- the "pending partial delimiter" idiom
+def pending_idiom(p: Program):
+    """The decoder may hold back `self.<attr>.search(self.buffer).start()` where <attr> is a regex anchored at the end of the
+    buffer that matches 'a line break followed by what may still grow into a delimiter'. Decided on automata, with the
+    boundary as one opaque symbol:
+      sound    every non-empty prefix of a delimiter that does not itself contain a complete delimiter is matched
+               (so a delimiter split across chunks is always held back from its line break on);
+      bounded  the matched words that do not contain 'line break -- boundary' have a bounded length (so content that does
+               not contain the delimiter is held back by at most len(boundary) + K bytes).
+    Returns {attr: (sound: bool, witness|None, K|None, pattern)} for every compiled pattern of __init__ that ends in \\Z."""
+    import re as _re
+
+    from .. import rx
+    from ..fold import Folder, NotConst
+
+    B = b"\x01"
+    LB = b"(?:\r\n|\n|\r)"
+    H = b"[ \t\x0b\x0c]"
+    REF_BOUNDARY = LB + b"--" + B + b"(?:--" + H + b"*" + LB + b"?|" + H + b"*" + LB + b")"
+    F = Folder(p)
+    mp = p.module("baize.multipart")
+    dec = _decoder(p)
+    init = dec.methods.get("__init__")
+    if init is None:
+        raise AnalysisError("MultipartDecoder.__init__ vanished")
+    env = {"boundary": B}
+    out = {}
+    for st in init.node.body:
+        if isinstance(st, ast.Assign) and len(st.targets) == 1:
+            t = st.targets[0]
+            if isinstance(t, ast.Name):
+                try:
+                    env[t.id] = F.fold(mp, st.value, env)
+                except NotConst:
+                    pass
+            elif isinstance(t, ast.Attribute) and isinstance(st.value, ast.Call) and p.resolve_call(init, st.value) == ("ext", "re.compile") and st.value.args:
+                try:
+                    pat = F.fold(mp, st.value.args[0], env)
+                except NotConst:
+                    continue
+                if not isinstance(pat, bytes) or not pat.endswith(b"\\Z"):
+                    continue
+                body = pat[:-2]
+                try:
+                    al = rx.alphabet_for([rx.Regex(REF_BOUNDARY), rx.Regex(body)])
+                    db, dp = rx.dfa_of(REF_BOUNDARY, al), rx.dfa_of(body, al)
+                    need = rx.intersect(rx.intersect(rx.prefix_closure(db), rx.complement(rx.then_anything(db))), rx.dfa_of(b"(?s).+", al))
+                    w = rx.difference_witness(need, dp)
+                    contains = rx.dfa_of(b"(?s).*" + LB + b"--" + B + b".*", al)
+                    k = rx.longest_word(rx.intersect(dp, rx.complement(contains)))
+                    # every match starts with a line break
+                    fs = dp.first_set()
+                    starts_lb = not dp.accepts_empty() and fs <= {10, 13}
+                except rx.Unsupported:
+                    continue
+                out[t.attr] = (w is None and starts_lb, w, k, pat)
+    return out
